@@ -1,18 +1,18 @@
 INIT Init
 NEXT Next
 CONSTANTS
-  Part = "item"
-  MaxAlts = 2
-  MaxSamples = 2
-  MaxCalls = 2
+  Part = "interval"
+  MaxAlts = 1
+  MaxSamples = 1
+  MaxCalls = 1
   Correlated = FALSE
-  AnsOpts = {"a0", "a13", "a12", "a1", "a1f", "a1p", "a1t"}
-  CmpReturns = {"T", "F", "P", "d0", "d13", "Et"}
-  LeafAns = {}
-  LeafCmp = {}
+  AnsOpts = {}
+  CmpReturns = {}
+  LeafAns = {"a0", "a12", "a1", "a1f"}
+  LeafCmp = {"T", "F", "P", "d13"}
   TableGrades = {}
-  ListAns = {}
-  MaxItems = 1
+  ListAns = {"a0", "a12", "a1", "a1f"}
+  MaxItems = 2
   Layouts = {}
   TableOnly = {"g1212"}
   OkRecomputed = TRUE
